@@ -85,6 +85,8 @@ def main():
     json.dump(sorted(old.values(), key=lambda r: (r["property"], order(r["name"]))), open(out, "w"), indent=1)
     bad = []
     for (pid, name), r in sorted(results.items()):
+        if r.get("obsolete"):
+            continue
         c = r["checks"].get(pid) or next(iter(r["checks"].values()), {"exit": 0, "no_failing_input": False})
         if c["exit"] != 1:
             bad.append(f"{pid}/{name} MISSED")
